@@ -1,8 +1,10 @@
 package harness
 
 import (
+	"bytes"
 	"context"
 	"errors"
+	"log"
 	"os"
 	"runtime"
 	"sort"
@@ -35,9 +37,20 @@ const (
 	c18SiteEvents   = "eventsProvider"   // coordinator           : GetLatestEvents      (the service's own goroutine, inside safeCheckEvents)
 	c18SitePipeline = "pipeline"         // runner                : CheckUpkeeps         (worker-group goroutine, inside runWorkItem)
 	c18SitePost     = "stateUpdater"     // ineligible post-proc. : SetUpkeepState       (Process goroutine)
+	// a panic that ESCAPES a service's blocking Start and so drives the recoverer through its cool-down and restart:
+	// the result store's gc loop logs through the logger the operator hands to the factory; the harness's log
+	// writer panics on that line (result store = the restartable service kind: no StateMachine, latched close signal)
+	c18SiteGC = "resultStoreGC" // result store          : logger write in gc() (the service's own goroutine)
+	// v2 (OCR2) plugin: the report coordinator's log poll and the polling observer's registry call
+	c18SiteV2Perform = "v2PerformLogs"
+	c18SiteV2Stale   = "v2StaleLogs"
+	c18SiteV2Source  = "v2ActiveUpkeeps"
 )
 
-var c18Sites = []string{c18SiteLog, c18SiteRecov, c18SiteGetter, c18SiteEvents, c18SitePipeline, c18SitePost}
+var c18Sites = []string{c18SiteLog, c18SiteRecov, c18SiteGetter, c18SiteEvents, c18SitePipeline, c18SitePost, c18SiteGC}
+var c18SitesV2 = []string{c18SiteV2Perform, c18SiteV2Stale, c18SiteV2Source}
+
+const c18GCLine = "Garbage collecting result store"
 
 // c18Probe is the per-site bookkeeping shared by all fakes of one node.
 type c18Probe struct {
@@ -58,11 +71,21 @@ type c18Probe struct {
 	pipeDone bool           // a pipeline call that began after the last panic has returned
 	panicked chan struct{}  // closed at the first injected panic
 	once     sync.Once
+
+	holdSite   string // one call at this site is held in flight (it ignores its context, like a query that
+	holdAtCall int    // already has its rows) for holdNs of virtual time, then returns normally
+	holdNs     int64
+	held       chan struct{} // closed when that call has been entered
+	heldOnce   sync.Once
+}
+
+func (p *c18Probe) setHold(site string, atCall int, ns int64) {
+	p.holdSite, p.holdAtCall, p.holdNs = site, atCall, ns
 }
 
 func newC18Probe(site string, atCall, count int, coolDown int64) *c18Probe {
 	return &c18Probe{t0: time.Now(), coolDown: coolDown, calls: map[string]int{}, inWindow: map[string]int{}, inLast: map[string]int{},
-		site: site, atCall: atCall, count: count, firstAt: -1, lastAt: -1, okAfter: -1, panicked: make(chan struct{})}
+		site: site, atCall: atCall, count: count, firstAt: -1, lastAt: -1, okAfter: -1, panicked: make(chan struct{}), held: make(chan struct{})}
 }
 
 // hit records one call at a site and panics when the schedule says so.
@@ -92,10 +115,15 @@ func (p *c18Probe) hit(site string) {
 			p.inLast[site]++
 		}
 	}
+	hold := site == p.holdSite && p.holdNs > 0 && n == p.holdAtCall
 	p.mu.Unlock()
 	if boom {
 		p.once.Do(func() { close(p.panicked) })
 		panic("c18: injected panic at " + site)
+	}
+	if hold {
+		p.heldOnce.Do(func() { close(p.held) })
+		time.Sleep(time.Duration(p.holdNs))
 	}
 }
 
@@ -103,8 +131,8 @@ func (p *c18Probe) snapshot() map[string]int {
 	p.mu.Lock()
 	defer p.mu.Unlock()
 	out := map[string]int{}
-	for _, s := range c18Sites {
-		out[s] = p.calls[s]
+	for s, n := range p.calls {
+		out[s] = n
 	}
 	return out
 }
@@ -230,6 +258,33 @@ func (f *c18StateUpdater) SetUpkeepState(context.Context, ocr2keepers.CheckResul
 	return nil
 }
 
+// c18LogWriter is the io.Writer behind the *log.Logger handed to the factory (every service derives its logger
+// from it): it discards everything and reports the result store's gc line as a call at site resultStoreGC.
+type c18LogWriter struct{ p *c18Probe }
+
+func (w *c18LogWriter) Write(b []byte) (int, error) {
+	if bytes.Contains(b, []byte(c18GCLine)) {
+		w.p.hit(c18SiteGC)
+	}
+	return len(b), nil
+}
+
+// c18Sys is what a case needs of the system under test (v3 or v2 plugin)
+type c18Sys struct {
+	probe   *c18Probe
+	close   func() error
+	subs    func() int // block subscriptions still registered
+	stopEnv func()     // stops the harness's own environment goroutines (head feeder), if any
+	sites   []string   // provider sites whose calls are counted
+	others  []string   // sites of flows that tick on their own (for "other flows keep ticking")
+}
+
+func newC18V3Sys(t testing.TB, in c18Input) *c18Sys {
+	n := newC18Node(t, in)
+	return &c18Sys{probe: n.Probe, close: n.Plugin.Close, subs: n.Blocks.NumSubs, stopEnv: func() {}, sites: c18Sites,
+		others: []string{c18SiteLog, c18SiteRecov, c18SiteGetter, c18SiteEvents}}
+}
+
 type c18Node struct {
 	Plugin ocr3types.ReportingPlugin[plugin.AutomationReportInfo]
 	Probe  *c18Probe
@@ -240,12 +295,13 @@ type c18Node struct {
 // like NewNode, with the C18 fakes plugged in.
 func newC18Node(t testing.TB, in c18Input) *c18Node {
 	pr := newC18Probe(in.PanicSite, in.PanicAtCall, in.PanicCount, in.CoolDownNs)
+	pr.setHold(in.HoldSite, in.HoldAtCall, in.HoldNs)
 	n := &c18Node{Probe: pr, Blocks: &fakeBlocks{}}
 	fac := plugin.NewReportingPluginFactory(
 		&c18LogProvider{p: pr, work: in.Work, rng: NewRng(77)}, &c18Events{p: pr}, n.Blocks, &c18Recov{p: pr}, fakeBuilder{}, &c18Getter{p: pr},
 		&c18Pipeline{p: pr, latency: time.Duration(in.LatencyNs), honorCtx: in.HonorCtx, ineligible: in.Ineligible},
 		runner.RunnerConfig{Workers: 4, WorkerQueueLength: 100, CacheExpire: 20 * time.Minute, CacheClean: 30 * time.Second},
-		&recEncoder{}, utg, wg, &c18StateUpdater{p: pr}, quietLogger)
+		&recEncoder{}, utg, wg, &c18StateUpdater{p: pr}, log.New(&c18LogWriter{p: pr}, "", 0))
 	p, _, err := fac.NewReportingPlugin(context.Background(), ocr3types.ReportingPluginConfig{N: 4, F: 1, OffchainConfig: []byte(`{}`)})
 	if err != nil {
 		t.Fatalf("NewReportingPlugin: %v", err)
@@ -338,10 +394,14 @@ func c18Goroutines() (classes map[string]int, detail map[string]int) {
 			cls = "serviceStart"
 		case strings.Contains(inner, "timeTicker[") && strings.HasSuffix(inner, ".Start"),
 			strings.HasSuffix(inner, "resultStore).Start"), strings.HasSuffix(inner, "metadataStore).Start"),
-			strings.HasSuffix(inner, "coordinator).run"), strings.HasSuffix(inner, "Runner).Start"):
+			strings.HasSuffix(inner, "coordinator).run"), strings.HasSuffix(inner, "Runner).Start"),
+			strings.HasSuffix(inner, "reportCoordinator).run"), strings.Contains(inner, "polling.(*PollingObserver)"),
+			strings.Contains(inner, "observer.(*SimpleService)"):
 			cls = "service"
+		case strings.Contains(inner, "RecoverableService).serviceStart"):
+			cls = "serviceStart"
 		case strings.Contains(inner, "util.(*Cache[") && strings.HasSuffix(inner, ".Start"),
-			strings.Contains(inner, "util.(*WorkerGroup["):
+			strings.Contains(inner, "util.(*WorkerGroup["), strings.Contains(inner, "IntervalCacheCleaner["):
 			cls = "aux"
 		}
 		classes[cls]++
